@@ -429,7 +429,7 @@ theorem udpDispatch_safe (r : Role) (t : List Sess) (g : Seg) (e : Env) (hinv : 
           exact deliverChecked_safe r t s g hinv (findSess_mem t _ s hf).1 hg
   · split
     · split
-      · exact udpSafe_same r t hinv _ _ (by simp) (by simp)
+      · exact ⟨by simp, by simp, hinv⟩
       · rename_i s hf
         exact deliverChecked_safe r t s g hinv (findSess_mem t _ s hf).1 hg
     · exact udpSafe_same r t hinv _ _ (by simp) (by simp)
